@@ -699,8 +699,10 @@ RestorePers(id, res) ==
 Compact(res, R) ==
   /\ ~wtx.on
   /\ ("len0" \in DOMAIN R /\ ~IsErr(res)) => (R.len1 <= R.len0 /\ R.syncs <= 8 * (R.pages0 + 8))
-  \* the end state is a fixpoint (Compact.tla): compact() called again at once moves nothing and leaves the length alone
-  /\ ("again" \in DOMAIN R /\ ~IsErr(res)) => (R.again = Ok(FALSE) /\ R.len2 = R.len1)
+  \* the end state is a fixpoint (Compact.tla): compact() called again at once moves nothing.  (It may still trim: with
+  \* several regions each commit of the drain gives up one trailing region at most, and the drain stops when nothing is
+  \* pending - seen on the real code, 197 120 -> 66 048 bytes by a call that reports "nothing compacted"; not a property.)
+  /\ ("again" \in DOMAIN R /\ ~IsErr(res)) => (R.again = Ok(FALSE) /\ R.len2 <= R.len1)
   \* (after a reported storage error compact() is refused like every write; WHICH refusal it reports is not determined
   \* then: the savepoint registrations of a commit that failed stay in the tracker until the database is reopened)
   /\ IF latch # "ok" THEN IsErr(res)
